@@ -85,6 +85,19 @@ impl<A: std::hash::BuildHasher + Clone, B: std::hash::BuildHasher + Clone> Subje
                 {
                     return vec![-7];
                 }
+                // Clone::clone_from into a cache that has moved on: afterwards it answers like the source
+                {
+                    let mut d = c.clone();
+                    let _ = d.put(TKey::new(u64::MAX - 7), TVal::new(7));
+                    d.clone_from(c);
+                    if (d.cap(), d.len(), d.protected_len(), d.probationary_len()) != (c.cap(), c.len(), c.protected_len(), c.probationary_len())
+                        || d.contains(&KQ(u64::MAX - 7))
+                        || d.peek_lru_from_probationary().map(|(k, v)| (k.id, v.v)) != c.peek_lru_from_probationary().map(|(k, v)| (k.id, v.v))
+                        || d.peek_mru_from_protected().map(|(k, v)| (k.id, v.v)) != c.peek_mru_from_protected().map(|(k, v)| (k.id, v.v))
+                    {
+                        return vec![-7];
+                    }
+                }
                 let old = std::mem::replace(c, c2);
                 let n = old.len() as u64;
                 let before = ledger_drain();
